@@ -286,6 +286,11 @@ def run(ctx: Ctx):
             if isinstance(st, ast.Try):
                 ctx.fail("R08.c", f"{rel}::<module>::try", "module-level try/except is not in the vetted table", f"{rel}:{st.lineno}")
     check_undefined_symbol(ctx, "R08.c")
+    # the checks run on every load: nothing is remembered between models in module-level state
+    from .c09 import global_mutations
+
+    global_mutations(ctx, "R08.c", only_rel="ode.py")
+    global_mutations(ctx, "R08.c", only_rel="transformer.py")
     from . import util as _u8c
     from .c01 import REF_SORT_ASSIGNMENTS
 
